@@ -107,6 +107,7 @@ class Compiler:
         self.subst = {}
         self.varargs = {}
         self.handling = []
+        self.lists = set()
 
     # ------------------------------------------------------------------ expressions (pure)
     def name(self, n):
@@ -130,6 +131,14 @@ class Compiler:
             if self.params.get(n) == 'intparam':
                 return S['$' + n]
             raise Unsupported('name ' + n)
+        if isinstance(e, ast.Subscript) and isinstance(e.value, ast.Name) and self.name(e.value.id) in self.lists:
+            lst = self.name(e.value.id)
+            idx = e.slice
+            if isinstance(idx, ast.UnaryOp) and isinstance(idx.op, ast.USub) and isinstance(idx.operand, ast.Constant):
+                return self.lst_get(S, lst, S[lst + '.len'] - idx.operand.value)
+            if isinstance(idx, ast.Constant) and isinstance(idx.value, int):
+                return self.lst_get(S, lst, IV(idx.value))
+            raise Unsupported('list subscript ' + ast.unparse(e))
         if isinstance(e, ast.UnaryOp) and isinstance(e.op, ast.Not):
             return z3.Not(self.ev(e.operand, S))
         if isinstance(e, ast.BoolOp):
@@ -197,6 +206,27 @@ class Compiler:
             return u
         return upd
 
+    # ---- thread-local lists (bounded by the queue capacity + 1), e.g. a batch drained from the queue
+    def lst_declare(self, name):
+        self.lists.add(name)
+        self.declare(name + '.len', 'int', 0)
+        for j in range(self.QC + 1):
+            self.declare(f'{name}[{j}]', 'int', NOITEM)
+
+    def lst_get(self, S, name, idx):
+        e = S[f'{name}[0]']
+        for j in range(1, self.QC + 1):
+            e = z3.If(idx == j, S[f'{name}[{j}]'], e)
+        return e
+
+    def lst_append(self, name, val):
+        def upd(S):
+            u = {name + '.len': S[name + '.len'] + 1}
+            for j in range(self.QC + 1):
+                u[f'{name}[{j}]'] = z3.If(S[name + '.len'] == j, val(S), S[f'{name}[{j}]'])
+            return u
+        return upd
+
     def declare(self, name, typ, init):
         if name not in self.p.vars:
             self.p.vars[name] = (typ, init)
@@ -216,6 +246,13 @@ class Compiler:
 
     def st_set(self, S, idx, val, cond=True):
         return {f'st[{i}]': z3.If(z3.And(idx == i, cond), val, S[f'st[{i}]']) for i in range(self.N)}
+
+    def prescan(self, stmts):
+        """statements are compiled back to front, so the names of thread-local lists must be known beforehand"""
+        for st in stmts:
+            for node in ast.walk(st):
+                if isinstance(node, ast.Assign) and len(node.targets) == 1 and isinstance(node.targets[0], ast.Name) and isinstance(node.value, ast.List):
+                    self.lst_declare(self.name(node.targets[0].id))
 
     # ------------------------------------------------------------------ statements
     def block(self, stmts, k, ctx):
@@ -314,6 +351,19 @@ class Compiler:
             p.edge(t, here, k, guard=lambda S, e=s.test: self.ev(e, S), label='assert-ok', line=L)
             p.edge(t, here, ctx.k_raise(UEXC), guard=lambda S, e=s.test: z3.Not(self.ev(e, S)), label='assert-fail', line=L)
             return here
+        if isinstance(s, ast.Assign) and len(s.targets) == 1 and isinstance(s.targets[0], ast.Name) and isinstance(s.value, ast.List):
+            tgt = self.name(s.targets[0].id)
+            self.lst_declare(tgt)
+            return self.list_build(tgt, s.value.elts, True, k, ctx, L)
+        if isinstance(s, ast.AugAssign) and isinstance(s.op, ast.Add) and isinstance(s.target, ast.Name) and self.name(s.target.id) in self.lists:
+            tgt = self.name(s.target.id)
+            if isinstance(s.value, ast.List):
+                return self.list_build(tgt, s.value.elts, False, k, ctx, L)
+            if isinstance(s.value, ast.ListComp):
+                return self.list_comp_extend(tgt, s.value, k, ctx, L)
+            raise Unsupported('list += ' + ast.unparse(s.value)[:40])
+        if isinstance(s, ast.Expr) and isinstance(s.value, ast.YieldFrom):
+            return self.yield_from(s.value.value, k, ctx, L)
         if isinstance(s, ast.Assign) and len(s.targets) == 1 and isinstance(s.targets[0], ast.Name):
             return self.assign(self.name(s.targets[0].id), s.value, k, ctx, L)
         if isinstance(s, ast.Expr):
@@ -321,6 +371,72 @@ class Compiler:
                 return self.flat_then(s.value.value, k, ctx, L, lambda name, k2: self.yield_(name, k2, ctx, L))
             return self.assign(None, s.value, k, ctx, L)
         raise Unsupported(ast.unparse(s)[:80])
+
+    # ------------------------------------------------------------------ local lists
+    def list_build(self, tgt, elts, reset, k, ctx, L):
+        """tgt = [e0, e1, ...] (reset) or tgt += [e0, ...]; elements are evaluated left to right"""
+        p, t = self.p, self.t
+        entry = k
+        for e in reversed(elts):
+            nxt = entry
+
+            def cont(nm, k2, nxt=nxt):
+                here = p.newloc(t, f'{tgt}.append@{L}')
+                p.edge(t, here, nxt, upd=self.lst_append(tgt, (lambda S, nm=nm: S[nm] if nm in self.p.vars else self.ev(ast.Name(id=nm), S))),
+                       label=f'{tgt}.append', line=L, local=True)
+                return here
+            entry = self.flat_then(e, None, ctx, L, cont)
+        if reset:
+            here = p.newloc(t, f'{tgt}=[]@{L}')
+            p.edge(t, here, entry, upd=lambda S: {tgt + '.len': IV(0)}, label=f'{tgt}=[]', line=L, local=bool(elts))
+            return here
+        return entry
+
+    def list_comp_extend(self, tgt, comp, k, ctx, L):
+        """tgt += [<elt> for _ in range(<expr>)]: range() is evaluated once, then <elt> is evaluated that many times"""
+        p, t = self.p, self.t
+        if len(comp.generators) != 1 or comp.generators[0].ifs or not isinstance(comp.generators[0].iter, ast.Call) \
+                or ast.unparse(comp.generators[0].iter.func) != 'range' or len(comp.generators[0].iter.args) != 1:
+            raise Unsupported('list comprehension ' + ast.unparse(comp)[:60])
+        cnt = self.newtmp()
+        head = p.newloc(t, f'comp@{L}')
+
+        def cont(nm, k2):
+            here = p.newloc(t, f'{tgt}.append@{L}')
+            p.edge(t, here, head, upd=lambda S: dict(self.lst_append(tgt, lambda S2: S2[nm])(S), **{cnt: S[cnt] - 1}), label=f'{tgt}.append', line=L, local=True)
+            return here
+        body = self.flat_then(comp.elt, None, ctx, L, cont)
+        p.edge(t, head, body, guard=lambda S: S[cnt] > 0, label='comp-next', line=L, local=True)
+        p.edge(t, head, k, guard=lambda S: S[cnt] <= 0, label='comp-end', line=L, local=True)
+        n_expr = comp.generators[0].iter.args[0]
+        first = p.newloc(t, f'range@{L}')
+        p.edge(t, first, head, upd=lambda S: {cnt: self.ev(n_expr, S)}, label='range()', line=L)
+        return first
+
+    def yield_from(self, e, k, ctx, L):
+        """yield from <list> | yield from <list>[:-1]"""
+        p, t = self.p, self.t
+        drop = 0
+        if isinstance(e, ast.Subscript) and isinstance(e.slice, ast.Slice) and e.slice.lower is None and e.slice.step is None \
+                and isinstance(e.slice.upper, ast.UnaryOp) and isinstance(e.slice.upper.op, ast.USub) and isinstance(e.slice.upper.operand, ast.Constant):
+            drop = e.slice.upper.operand.value
+            e = e.value
+        if not (isinstance(e, ast.Name) and self.name(e.id) in self.lists):
+            raise Unsupported('yield from ' + ast.unparse(e)[:40])
+        lst = self.name(e.id)
+        idx = self.newtmp()
+        head = p.newloc(t, f'yieldfrom@{L}')
+        inc = p.newloc(t, f'yieldfrom-inc@{L}')
+        p.edge(t, inc, head, upd=lambda S: {idx: S[idx] + 1}, label='yieldfrom-next', line=L, local=True)
+        y = self.yield_(lambda S: self.lst_get(S, lst, S[idx]), inc, ctx, L)
+        for e2 in p.edges:
+            if e2.src == y and e2.thread == t:
+                e2.local = True
+        p.edge(t, head, y, guard=lambda S: S[idx] < S[lst + '.len'] - drop, label='yieldfrom-item', line=L, local=True)
+        p.edge(t, head, k, guard=lambda S: S[idx] >= S[lst + '.len'] - drop, label='yieldfrom-end', line=L, local=True)
+        first = p.newloc(t, f'yieldfrom-init@{L}')
+        p.edge(t, first, head, upd=lambda S: {idx: IV(0)}, label='yield from', line=L)
+        return first
 
     # ------------------------------------------------------------------ yield
     def yield_(self, name, k, ctx, L):
